@@ -137,8 +137,39 @@ class Taint:
                 if st[0] == "assign" and st[2][0] == "binop" and st[2][1] in ("Lt", "Le", "Gt", "Ge"):
                     for o in (st[2][2], st[2][3]):
                         if o[0] in ("copy", "move") and self.canon_place(b, o[1]) == key:
+                            # the value compared must have been read after the store (a copy taken before it is the old value)
+                            if len(o[1]) == 1:
+                                rb = self._read_site(b, o[1][0])
+                                if rb is None:
+                                    continue
+                                rblk, ridx = rb
+                                if rblk == bi:
+                                    si = None
+                                    for k2, s2 in enumerate(b["blocks"][bi]["stmts"]):
+                                        if s2[0] == "assign" and s2[1] == list(pl):
+                                            si = k2
+                                    if si is None or ridx < si:
+                                        continue
+                                elif not (rblk == ci or rblk in cfg.reachable_from(bi)):
+                                    continue
                             return True
         return False
+
+    def _read_site(self, b, tmp, depth=0):
+        """(block, statement index) where the value of a single-definition temporary was read out of memory"""
+        ds = self.defs(b).get(tmp, [])
+        if len(ds) != 1 or ds[0][0] != "assign" or depth > 8:
+            return None
+        rv = ds[0][2]
+        if rv[0] != "use" or rv[1][0] not in ("copy", "move"):
+            return None
+        src = rv[1][1]
+        if len(src) == 1:
+            return self._read_site(b, src[0], depth + 1)
+        for k2, s2 in enumerate(b["blocks"][ds[0][1]]["stmts"]):
+            if s2[0] == "assign" and s2[1] == [tmp]:
+                return ds[0][1], k2
+        return None
 
     def _join_field(self, key, v):
         old = self.field_taint.get(key)
@@ -244,10 +275,14 @@ class Taint:
         if any(e[0] in ("index", "cindex") for e in proj):
             bt = b["locals"][base]["s"]
             m = re.search(r"\[(\w+)(?:; \d+)?\]|Vec<(\w+)>", bt)
-            if m:
-                et = m.group(1) or m.group(2)
-                if et in INT_TYPES:
-                    return Val(False, typemax(et), et in SIGNED)
+            et = (m.group(1) or m.group(2)) if m else None
+            # a collection of numbers that itself came from the file (a numeric array field of a model, or a copy /
+            # conversion of one) hands out file numbers; byte buffers and strings never count (CONTAINER)
+            cv = self.local(b, base, depth + 1)
+            if cv.taint and et in INT_TYPES and et != "u8":
+                return Val(True, typemax(et), et in SIGNED, "element of " + (cv.why or "a file-derived collection"), cv.g)
+            if et in INT_TYPES:
+                return Val(False, typemax(et), et in SIGNED)
             return Val(False, INF)
         # a named field of a struct that is not a typed model: field-sensitive when the struct is built here,
         # otherwise unknown (NOT the join of everything that ever flowed into the struct)
@@ -379,6 +414,11 @@ class Taint:
                         return None
                     vals.append(got)
                     continue
+                if seg == "from_residual":
+                    # `?` propagating a failure: this definition only ever holds Err / None
+                    if path and path[0][0] == "downcast" and path[0][1] in ("Ok", "Some", "Continue"):
+                        continue
+                    return None
                 r = t.get("resolved")
                 if r and t.get("resolved_local") and r in self.f.bodies:
                     v = self.component(self.f.bodies[r], 0, list(path), depth + 1)
@@ -415,9 +455,12 @@ class Taint:
             return self._memo[key]
         if key in self._inprog or self._depth > 150:
             # cyclic definition (loop-carried) or very deep chain: unbounded unless proven otherwise by a guard at the use
+            self._cut = True
             return Val(False, INF)
         self._inprog.add(key)
         self._depth += 1
+        cut_before = getattr(self, "_cut", False)
+        self._cut = False
         try:
             vals = []
             ds = self.defs(b).get(l, [])
@@ -443,7 +486,11 @@ class Taint:
         finally:
             self._inprog.discard(key)
             self._depth -= 1
-        if self._depth <= 150:
+            cut_here = self._cut
+            self._cut = cut_before or cut_here
+        # a value computed while a cycle / depth cut-off was in effect is provisional: do not remember it
+        # (the outermost frame of a cycle does remember: its own in-progress marker was the only cut)
+        if not cut_here or not self._inprog:
             self._memo[key] = v
         return v
 
@@ -476,10 +523,12 @@ class Taint:
                 ab, cb_ = a.eb, c.eb
             else:
                 ab, cb_ = a.bound, c.bound
+            # a compared / clamped file number plus or minus an in-memory size is still a vetted quantity
+            keep_g = t and all(x.g for x in (a, c) if x.taint)
             if op == "Add":
-                return Val(t, ab + cb_, a.neg or c.neg, why)
+                return Val(t, ab + cb_, a.neg or c.neg, why, keep_g)
             if op == "Sub":
-                return Val(t, ab if not c.neg else ab + cb_, True if (a.neg or c.taint or a.taint) else False, why)
+                return Val(t, ab if not c.neg else ab + cb_, True if (a.neg or c.taint or a.taint) else False, why, keep_g)
             if op == "Mul":
                 return Val(t, ab * cb_ if 0 not in (ab, cb_) else 0, a.neg or c.neg, why)
             if op == "Div":
@@ -591,7 +640,7 @@ class Taint:
                 continue
             v = self.operand(cb, t["args"][n - 1], 1)
             al = F.op_local(t["args"][n - 1])
-            if v.taint and not v.g and al is not None and self.guarded(cb, bi, al):
+            if v.taint and not v.g and al is not None and self.guarded_exact(cb, bi, t["args"][n - 1]):
                 v = Val(v.taint, v.bound, v.neg, v.why, True)
             vals.append(v)
         if vals:
@@ -652,6 +701,114 @@ class Taint:
             if rv[0] in ("ref", "rawptr") and len(pl) > 1 and pl[1][0] == "deref":
                 return self.canon_place(b, list(rv[1]) + list(pl[2:]), depth + 1)
         return list(pl)
+
+    def expr_key(self, b, op_or_place, depth=0):
+        """canonical form (nested tuples) of the expression a temporary holds, through single-definition temporaries:
+        two operands with the same key carry the same value"""
+        if depth > 10:
+            return ("?",)
+        if isinstance(op_or_place, (list, tuple)) and op_or_place and op_or_place[0] == "const":
+            c = op_or_place[1]
+            return ("c", c.get("int", c.get("str", c.get("bool", "?"))))
+        pl = op_or_place[1] if (isinstance(op_or_place, (list, tuple)) and op_or_place and op_or_place[0] in ("copy", "move")) else op_or_place
+        pl = self.canon_place(b, list(pl))
+        base = pl[0]
+        ds = self.defs(b).get(base, [])
+        if len(ds) == 1 and not (1 <= base <= b["argc"]):
+            d = ds[0]
+            if d[0] == "assign":
+                rv = d[2]
+                proj = pl[1:]
+                if rv[0] == "binop" and (not proj or (len(proj) == 1 and proj[0][0] == "field" and proj[0][1] == 0)):
+                    op = rv[1].replace("WithOverflow", "").replace("Unchecked", "")
+                    a, c = self.expr_key(b, rv[2], depth + 1), self.expr_key(b, rv[3], depth + 1)
+                    if op in ("Add", "Mul", "BitAnd", "BitOr", "BitXor") and repr(c) < repr(a):
+                        a, c = c, a
+                    return (op, a, c)
+                if rv[0] == "cast" and not proj:
+                    return self.expr_key(b, rv[2], depth + 1)
+                if rv[0] == "use" and rv[1][0] == "const" and not proj:
+                    return self.expr_key(b, rv[1], depth + 1)
+                if rv[0] in ("ref", "rawptr") and not proj:
+                    # a reference to x stands for x where values are compared (`(5..=16).contains(&key_size)`)
+                    return self.expr_key(b, rv[1], depth + 1)
+            if d[0] == "call" and len(pl) == 1:
+                t = d[2]
+                seg = last_seg(F.callee_name(t))
+                if seg in ("len", "min", "max", "checked_add", "checked_sub", "checked_mul", "saturating_sub", "saturating_add", "wrapping_add", "wrapping_sub", "into", "from", "clone", "as_ref", "deref"):
+                    return (seg,) + tuple(self.expr_key(b, a, depth + 1) for a in t["args"])
+        return ("p", json.dumps(pl))
+
+    def _places_in(self, key):
+        out = set()
+        if isinstance(key, tuple):
+            if key and key[0] == "p":
+                pl = json.loads(key[1])
+                if len(pl) > 1:
+                    out.add(key[1])
+            else:
+                for x in key[1:]:
+                    out |= self._places_in(x)
+        return out
+
+    def _places_stable(self, b, places, from_bb, to_bb, count_to=True):
+        cfg = self.cfg(b)
+        stores = getattr(self, "_stores", None)
+        if stores is None:
+            stores = self._stores = {}
+        st = stores.get(b["id"])
+        if st is None:
+            st = []
+            for i, j, s in F.stmts(b):
+                if s[0] == "assign" and len(s[1]) > 1:
+                    st.append((i, json.dumps(self.canon_place(b, s[1]))))
+            stores[b["id"]] = st
+        for i, pj in st:
+            if i == to_bb and not count_to:
+                continue
+            if pj in places and i != from_bb and cfg.dominates(from_bb, i) and (i == to_bb or to_bb in cfg.reachable_from(i, avoid={from_bb})):
+                return False
+        return True
+
+    @staticmethod
+    def _covers(compared, key):
+        """a comparison of `compared` bounds `key`: the same expression, or key + something (checked, so no wrap)"""
+        if compared == key:
+            return True
+        if compared and compared[0] == "Add" and key in compared[1:]:
+            return True
+        return False
+
+    def guarded_exact(self, b, site_bb, op):
+        """a comparison of the very same value (same expression, or the value plus something) dominates site_bb, or it
+        was looked up with get() / tested by a checked_* / contains call before"""
+        cfg = self.cfg(b)
+        key = self.expr_key(b, op)
+        if key[0] == "c":
+            return True
+        places = self._places_in(key)
+        for bi, bb in enumerate(b["blocks"]):
+            if not cfg.dominates(bi, site_bb):
+                continue
+            if places and not self._places_stable(b, places, bi, site_bb):
+                continue        # a field the expression reads is stored to between the comparison and the use
+            t = bb["term"]
+            if t["k"] == "switch":
+                for st in bb["stmts"]:
+                    if st[0] == "assign" and st[2][0] == "binop" and st[2][1] in ("Lt", "Le", "Gt", "Ge", "Eq", "Ne"):
+                        if self._covers(self.expr_key(b, st[2][2]), key) or self._covers(self.expr_key(b, st[2][3]), key):
+                            return True
+            if t["k"] == "call" and bi != site_bb and last_seg(F.callee_name(t)) in ("get", "get_mut", "contains", "checked_add", "checked_sub", "checked_mul", "try_from", "try_into", "read", "contains_key"):
+                for a in t["args"]:
+                    if self._covers(self.expr_key(b, a), key):
+                        return True
+                    # a range argument built from the value
+                    al = F.op_local(a)
+                    for d in self.defs(b).get(al, []) if al is not None else []:
+                        if d[0] == "assign" and d[2][0] == "aggregate":
+                            if any(self._covers(self.expr_key(b, o), key) for o in d[2][2]):
+                                return True
+        return False
 
     def guarded(self, b, site_bb, l):
         """a comparison involving l (or something l was computed from / that was computed from the same
